@@ -38,6 +38,7 @@ pub static SPEC: Spec = Spec {
         "calls:verify_and_apply_proof",
         "calls:missing_nodes",
         "calls:clear",
+        "threaded_runs",
     ],
     rule: "a case = one configuration (2-4 tasks x 1-4 calls from {append, append_batch, get, has, info, create_proof, missing_nodes, clear through the public lock} on a shared writer, or {verify_and_apply_proof of pre-generated honest proofs, get, has, info, missing_nodes} on a shared replica) run under many schedules of a deterministic single-threaded executor over a backend that suspends at every storage operation; preemption points: before every call, every storage operation, every contended lock acquisition; each task records call and return events at the client boundary from one logical clock; oracle: the history must be linearizable against the plain (unshared) Hypercore as sequential specification - some total order respecting real-time precedence, replayed on a fresh plain core built from the same seed and prelude, must reproduce every recorded result (return order tried first, then memoised backtracking) - plus closed-form checks (append outcomes distinct and gap-free in length and byte length, every task's tagged blocks readable at the indices implied by its outcome, every get result is exactly one appended block, info pairs existed); all schedules (DFS) for the smallest configurations, seeded-random / PCT schedules otherwise; evaluations = schedules; distinct = (configuration, choice-sequence hash)",
     assumptions: &["schedules are those a cooperative executor can produce at the listed preemption points (plus OS schedules in the threaded sanitizer lanes), not all interleavings of machine instructions"],
@@ -354,6 +355,55 @@ fn run_schedule(cfg: &Config, chooser: &mut dyn Chooser) -> Result<RunOut, Strin
         Err(_) => None,
     };
     Ok(RunOut { recs, stats, max_pending, parked_while_holder_suspended: parked, final_core, widths: vec![], taken: vec![] })
+}
+
+/// The same configuration under real OS threads (one per task, each busy-polling its own calls):
+/// call/return are stamped from one global atomic clock, so real-time precedence is sound.
+fn run_threads(cfg: &Config) -> Result<RunOut, String> {
+    use std::sync::atomic::{AtomicU64, Ordering};
+    let b = build(cfg)?;
+    b.world.lock().unwrap().yield_mode = true;
+    let shared = SharedCore::from_hypercore(b.core);
+    let proofs = Arc::new(b.proofs);
+    let log: Arc<Mutex<Vec<Rec>>> = Arc::new(Mutex::new(vec![]));
+    let clock = Arc::new(AtomicU64::new(0));
+    let mut handles = vec![];
+    for (t, calls) in cfg.tasks.iter().enumerate() {
+        let core = shared.clone();
+        let calls = calls.clone();
+        let log = log.clone();
+        let clock = clock.clone();
+        let proofs = proofs.clone();
+        handles.push(std::thread::spawn(move || {
+            for (k, c) in calls.iter().enumerate() {
+                std::thread::yield_now();
+                let id = {
+                    let mut l = log.lock().unwrap();
+                    let tc = clock.fetch_add(1, Ordering::SeqCst) + 1;
+                    l.push(Rec { task: t, k, call: c.clone(), t_call: tc, t_ret: None, result: None });
+                    l.len() - 1
+                };
+                let res = exec::block_on(exec_shared(&core, c, &proofs));
+                let mut l = log.lock().unwrap();
+                let tr = clock.fetch_add(1, Ordering::SeqCst) + 1;
+                l[id].t_ret = Some(tr);
+                l[id].result = Some(res);
+            }
+        }));
+    }
+    for h in handles {
+        if h.join().is_err() {
+            return Err("a task thread panicked".into());
+        }
+    }
+    let recs = log.lock().unwrap().clone();
+    let final_core = match Arc::try_unwrap(shared.0) {
+        Ok(m) => Some(m.into_inner()),
+        Err(_) => None,
+    };
+    let mut stats = sched::RunStats::default();
+    stats.choice_hash = fnv(format!("{:?}", recs.iter().map(|r| (r.task, r.t_call, r.t_ret)).collect::<Vec<_>>()).as_bytes());
+    Ok(RunOut { recs, stats, max_pending: 0, parked_while_holder_suspended: 0, final_core, widths: vec![], taken: vec![] })
 }
 
 /// Linearizability: find a total order respecting real-time precedence whose sequential replay
@@ -718,6 +768,22 @@ fn run_case(ctx: &mut Ctx, id: u64) {
         };
         if !check_run(ctx, &cfg, &mut out, "pct") {
             return;
+        }
+    }
+    // every eighth configuration also runs under real OS threads (true parallelism, OS schedules)
+    if id % 8 == 0 {
+        for _ in 0..10 {
+            let mut out = match run_threads(&cfg) {
+                Ok(o) => o,
+                Err(e) => {
+                    ctx.violate("threaded-run-failed".into(), e, json!({"kind":"threads","config": cfg.to_json()}));
+                    return;
+                }
+            };
+            ctx.count("threaded_runs");
+            if !check_run(ctx, &cfg, &mut out, "os-threads") {
+                return;
+            }
         }
     }
     if id % 997 == 0 {
